@@ -1,0 +1,71 @@
+// Copyright 2023 The Go Authors. All rights reserved.
+// Use of this source code is governed by a BSD-style
+// license that can be found in the LICENSE file.
+
+//go:build verif && (!goexperiment.jsonv2 || !go1.25)
+
+package jsonopts
+
+import "github.com/go-json-experiment/json/internal/jsonflags"
+
+// Contracts for options.go.
+
+// InitializeMultiline sets exactly the defaults implied by Multiline that the
+// caller did not specify: SpaceAfterColon true, SpaceAfterComma false, and a
+// tab indent; a specified value is never overridden.
+//
+//@ func (*Struct).InitializeMultiline
+//@ theory bv
+//@ property C19 C12 C20
+//@ requires s != nil
+//@ modifies s.Flags.Presence, s.Flags.Values, s.Indent
+//@ ensures colon: s.Flags.Has(jsonflags.SpaceAfterColon) && (old(s.Flags.Has(jsonflags.SpaceAfterColon)) ==> s.Flags.Get(jsonflags.SpaceAfterColon) == old(s.Flags.Get(jsonflags.SpaceAfterColon))) && (!old(s.Flags.Has(jsonflags.SpaceAfterColon)) ==> s.Flags.Get(jsonflags.SpaceAfterColon))
+//@ ensures comma: s.Flags.Has(jsonflags.SpaceAfterComma) && (old(s.Flags.Has(jsonflags.SpaceAfterComma)) ==> s.Flags.Get(jsonflags.SpaceAfterComma) == old(s.Flags.Get(jsonflags.SpaceAfterComma))) && (!old(s.Flags.Has(jsonflags.SpaceAfterComma)) ==> !s.Flags.Get(jsonflags.SpaceAfterComma))
+//@ ensures indent: s.Flags.Has(jsonflags.Indent) && (old(s.Flags.Has(jsonflags.Indent)) ==> s.Indent == old(s.Indent)) && (!old(s.Flags.Has(jsonflags.Indent)) ==> s.Indent == "\t" && s.Flags.Get(jsonflags.Indent))
+
+//@ func ChangedWhitespace
+//@ theory bv
+//@ property C19 C12 C20
+//@ ensures result == (s1.Flags.Get(jsonflags.Multiline) != s2.Flags.Get(jsonflags.Multiline) || s1.Flags.Get(jsonflags.SpaceAfterColon) != s2.Flags.Get(jsonflags.SpaceAfterColon) || s1.Flags.Get(jsonflags.SpaceAfterComma) != s2.Flags.Get(jsonflags.SpaceAfterComma) || (s2.Flags.Get(jsonflags.Multiline) && (s1.Indent != s2.Indent || s1.IndentPrefix != s2.IndentPrefix)))
+
+// The "json" package injects the handling of its own option types (Marshalers,
+// Unmarshalers, format) through this hook; it returns an updated copy of the
+// struct it is given and has no other effect.
+//
+//@ extern jsonopts.JoinUnknownOption(s Struct, o Options) (result Struct)
+//@ trusted injected by package json (options.go): a pure function from (Struct, Options) to Struct
+
+//@ extern jsonopts.experimentalFormatTagSupporter.ExperimentalSupportFormatTag() (result bool)
+//@ trusted implemented only by json.ExperimentalSupportFormatTag: returns its boolean value, no side effect
+
+// Join folds the options into dst from left to right. A *Struct source
+// overrides exactly the slots it has set: the boolean flags by Flags.Join, and
+// each non-boolean slot iff the source has its presence bit.
+//
+//@ func (*Struct).Join
+//@ property C19 C20
+//@ requires dst != nil && vForall(0, len(srcs), func(i int) bool { return isStruct(srcs[i]) ==> asStruct(srcs[i]) != nil })
+//@ modifies *dst
+//@ loop 0 invariant true
+//@ at call src.Flags.Has#0 assert nonbool-mask: !callResult ==> !src.Flags.Has(jsonflags.Indent) && !src.Flags.Has(jsonflags.IndentPrefix) && !src.Flags.Has(jsonflags.ByteLimit) && !src.Flags.Has(jsonflags.DepthLimit) && !src.Flags.Has(jsonflags.Marshalers) && !src.Flags.Has(jsonflags.Unmarshalers) && !src.Flags.Has(jsonflags.FormatTag)
+
+//@ spec isStruct
+func isStruct(o Options) bool {
+	_, ok := o.(*Struct)
+	return ok
+}
+
+//@ spec asStruct
+func asStruct(o Options) *Struct {
+	s, _ := o.(*Struct)
+	return s
+}
+
+// joinSpecOpts is jsonflags' last-wins union of two flag maps (the specification
+// of Flags.Join), repeated here because contracts cannot name another package's
+// unexported spec function.
+//
+//@ spec joinSpecOpts
+func joinSpecOpts(a, b jsonflags.Flags) jsonflags.Flags {
+	return jsonflags.Flags{Presence: a.Presence | b.Presence, Values: a.Values&^b.Presence | b.Values}
+}
